@@ -325,6 +325,105 @@ def check(run: Run) -> None:
                         "did NOT tick with its empty delta, and the replay side treats an empty delta as a (validating) tick of a not-yet-valid set / "
                         f"dictionary ({effs}): after replay the field is valid and modified although the original never ticked it", loc=fa.loc(pre[0]))
 
+    with run.obligation("C20.i", "K3+K11", "recovery fold (recorded_seed_resolver): the recorded entries are applied in buffer order, each delta at ITS OWN recorded time "
+                        "(a view of the accumulator taken inside the loop at the entry's time), never beyond the start time, and the folded value is read at the start "
+                        "time; folding two recorded cycles into one engine time merges remove / re-add of a key and breaks 'pre-tick state + delta = post-tick state'"):
+        fa = R.fn(run, "src/hgraph/types/record_replay.cpp", "recorded_seed_resolver")
+        cn = R.aliases_of(fa)
+        inits: Dict[str, C.Node] = {}
+        for n_ in fa.body.walk():
+            if isinstance(n_, C.Declarator) and n_.name and n_.init is not None and not n_.bindings:
+                inits.setdefault(n_.name, n_.init)
+        applies = R.calls(fa, "apply_delta")
+        run.count(len(applies), "C20.i")
+        if len(applies) != 1:
+            raise AnalysisError("anchor-vanished", f"C20.i: {len(applies)} apply_delta calls in recorded_seed_resolver")
+        call = applies[0]
+        loops_ = [l for l in R.loops(fa) if any(x is call for x in l.walk())]
+        if not loops_:
+            run.finding("C20.i", "recorded_seed_resolver:apply-outside-loop", "apply_delta is not inside the loop over the recorded entries", loc=fa.loc(call))
+        else:
+            loop = loops_[-1]
+            sh = R.loop_shape(loop, cn)
+            if not (sh.get("kind") == "RangeFor" or (sh.get("init") == "0" and sh.get("cond_op") == "<" and sh.get("step") == "++" and not sh.get("body_writes_var"))):
+                run.finding("C20.i", "recorded_seed_resolver:loop-shape", f"the fold does not visit the recorded entries once each in buffer order: {sh}", loc=fa.loc(loop))
+            # names that change per iteration: the loop variable(s) and every local of the loop body derived from one
+            dep = set(n for n in ([sh.get("var")] if sh.get("var") else []) + list(getattr(loop, "names", None) or []) if n)
+            body_decls = [n_ for n_ in loop.body.walk() if isinstance(n_, C.Declarator) and n_.name and n_.init is not None]
+            changed = True
+            while changed:
+                changed = False
+                for d_ in body_decls:
+                    if d_.name not in dep and any(isinstance(x, C.Id) and x.name in dep for x in d_.init.walk()):
+                        dep.add(d_.name)
+                        changed = True
+            def expand(e, depth=0):
+                while isinstance(e, C.Id) and e.name in inits and depth < 6:
+                    e = inits[e.name]
+                    depth += 1
+                return e
+            target = expand(call.args[0]) if call.args else None
+            ok = isinstance(target, C.Call) and isinstance(target.fn, C.Member) and target.fn.name == "view" and len(target.args) == 1
+            if ok:
+                t_arg = target.args[0]
+                t_dep = any(isinstance(x, C.Id) and x.name in dep for x in t_arg.walk())
+                # the time must come from the entry's time field (index 0 of the (time, delta) entry)
+                t_src = expand(t_arg)
+                from_entry = any(isinstance(x, C.Call) and isinstance(x.fn, C.Member) and x.fn.name == "at" and x.args and cn(x.args[0]) == "0" for x in t_src.walk())
+                if not (t_dep and from_entry):
+                    ok = False
+            if not ok:
+                run.finding("C20.i", "recorded_seed_resolver:delta-not-applied-at-its-own-time", "the recorded delta is not applied through a view of the accumulator taken at the "
+                            f"entry's own recorded time (apply_delta target: {cn(call.args[0]) if call.args else '?'}): deltas of different recorded cycles are folded into "
+                            "one engine time", loc=fa.loc(call))
+            # the delta applied is the entry's delta field
+            d_src = expand(call.args[1]) if len(call.args) > 1 else None
+            if not (d_src is not None and any(isinstance(x, C.Call) and isinstance(x.fn, C.Member) and x.fn.name == "at" and x.args and cn(x.args[0]) == "1" for x in d_src.walk())
+                    and any(isinstance(x, C.Id) and x.name in dep for x in d_src.walk())):
+                run.finding("C20.i", "recorded_seed_resolver:wrong-delta-field", "apply_delta is not given field 1 (the delta) of the current entry", loc=fa.loc(call))
+            # entries later than the start time are never folded: the loop leaves at the first entry with when > start_time
+            fl = R.flow(run, fa)
+            R.k2_precede(run, "C20.i", fl, lambda n: n.kind == "cond" and re.sub(r"\s", "", n.label) in ("when>start_time", "start_time<when", "when<=start_time", "start_time>=when"),
+                         R.call_is(name="apply_delta"), "the entry's time is compared with the start time before its delta is applied")
+
+    with run.obligation("C20.j", "K9+K2", "the list storages that hold a recording buffer mark a cycle WITHOUT a tick as an unset element (validity bitmap): every copy of such a storage "
+                        "(GlobalState copy-in / copy-back) carries the bitmap on its full-copy path, so a hole never turns into a default-valued tick"):
+        n_cls = 0
+        for rel in run.tree.all_files():
+            if not rel.startswith("include/hgraph/types/value/") or "validity_" not in run.tree.read(rel):
+                continue
+            fi_ = run.tree.file(rel)
+            for fd_ in fi_.funcs:
+                if fd_.name != "copy_from" or fd_.body is None or not fd_.cls:
+                    continue
+                try:
+                    sd_ = run.tree.struct(rel, fd_.cls)
+                except AnalysisError:
+                    continue
+                if not any(f.name == "validity_" for f in sd_.fields):
+                    continue
+                fa_ = R.parse(run, fd_)
+                if len(fa_.params) != 1 or fd_.cls not in fa_.params[0][0]:
+                    continue
+                src = fa_.params[0][1]
+                n_cls += 1
+                fl = R.flow(run, fa_)
+                is_ret = lambda n: n.kind == "stmt" and n.label.startswith("return")
+                for field in ("validity_",):  # size_ is rebuilt by a counting loop in one of the two classes; the bitmap has no other source than the copy
+                    if not any(f.name == field for f in sd_.fields):
+                        continue
+                    wr = lambda n, field=field, src=src: n.kind in ("stmt", "decl") and any(
+                        l == field and (re.search(r"\b" + re.escape(src) + r"\b", r) or (field == "size_" and r == "++")) for l, r in n.stores)
+                    w = fl.reach([fl.start], avoid=lambda n, wr=wr: wr(n) or is_ret(n), targets=lambda n, fl=fl: n.id == fl.cfg.exit, after_source=False)
+                    run.count(1, "C20.j")
+                    if w is not None:
+                        run.finding("C20.j", f"{fd_.cls}::copy_from:{field}-not-copied", f"{fd_.cls}::copy_from reaches its end on the full-copy path without taking `{field}` from "
+                                    f"the source ({fl.path_text(w)}): a copied recording buffer loses its no-tick holes", loc=fa_.loc(fa_.body))
+        if run._cur is not None:
+            run._cur["sites"] = n_cls
+        if n_cls < 2:
+            raise AnalysisError("anchor-vanished", f"C20.j: {n_cls} list storages with a validity bitmap and a copy_from, expected ListStorage and MutableListStorage")
+
 
 def _method(run: Run, struct: str, name: str) -> C.FuncAST:
     fi = run.tree.file(MEM)
@@ -382,6 +481,12 @@ def _check_capture(run: Run, fa: C.FuncAST, sources, fname: str, via=None) -> No
 
 
 VARIANTS = [
+    {"id": "j-mutable-list-copy-drops-holes", "expect": "C20.j", "edits": [{"file": "include/hgraph/types/value/mutable_container_ops.h", "find": "                slots_ = ValueSlotStore{};  // unbound; destroys any prior payloads\n                return;", "replace": "                slots_ = ValueSlotStore{};  // unbound; destroys any prior payloads\n                validity_ = other.validity_;\n                return;"}, {"file": "include/hgraph/types/value/mutable_container_ops.h", "find": "                ++size_;\n            }\n            validity_ = other.validity_;\n", "replace": "                ++size_;\n            }\n"}]},
+    {"id": "j-compact-list-copy-drops-holes", "expect": "C20.j", "edits": [{"file": "include/hgraph/types/value/compact_storage.h", "find": "            size_            = other.size_;\n            validity_        = other.validity_;\n            if (element_binding_ == nullptr) { return; }", "replace": "            size_            = other.size_;\n            if (element_binding_ == nullptr) { validity_ = other.validity_; return; }"}]},
+    {"id": "j-twin-copy-bitmap-first", "expect": None, "edits": [{"file": "include/hgraph/types/value/mutable_container_ops.h", "find": "            element_binding_ = other.element_binding_;\n            size_            = 0;\n            if (element_binding_ == nullptr)\n            {\n                slots_ = ValueSlotStore{};  // unbound; destroys any prior payloads", "replace": "            element_binding_ = other.element_binding_;\n            validity_        = other.validity_;\n            size_            = 0;\n            if (element_binding_ == nullptr)\n            {\n                slots_ = ValueSlotStore{};  // unbound; destroys any prior payloads"}]},
+    {"id": "i-fold-at-start-time", "expect": "C20.i", "edits": [{"file": "src/hgraph/types/record_replay.cpp", "find": "            apply_delta(accumulated.view(when), entry.at(1));", "replace": "            apply_delta(accumulated.view(start_time), entry.at(1));"}]},
+    {"id": "i-fold-ignores-start-time", "expect": "C20.i", "edits": [{"file": "src/hgraph/types/record_replay.cpp", "find": "            if (when > start_time)\n            {\n                break;\n            }\n            apply_delta(", "replace": "            apply_delta("}]},
+    {"id": "i-twin-named-view", "expect": None, "edits": [{"file": "src/hgraph/types/record_replay.cpp", "find": "            apply_delta(accumulated.view(when), entry.at(1));", "replace": "            const auto at_entry_time = accumulated.view(when);\n            apply_delta(at_entry_time, entry.at(1));"}]},
     {"id": "d-tsl-capture-requires-all-valid", "expect": "C20.d", "edits": [{"file": DELTA, "find": "            for (const auto &[index, child] : list.modified_items())\n            {\n                if (!child.valid()) { continue; }", "replace": "            for (const auto &[index, child] : list.modified_items())\n            {\n                if (!child.all_valid()) { continue; }"}]},
     {"id": "d-tsb-capture-ignores-modified", "expect": "C20.d", "edits": [{"file": DELTA, "find": "                if (!child.modified() || !child.valid()) { continue; }", "replace": "                if (!child.valid()) { continue; }"}]},
     {"id": "a-tss-apply-is-tsd", "expect": "C20.a", "edits": [{"file": "src/hgraph/types/metadata/ts_data_slot_ops.cpp", "find": ".apply_delta_impl          = &ts_data_detail::apply_delta_tss,", "replace": ".apply_delta_impl          = &ts_data_detail::apply_delta_tsd,"}]},
